@@ -122,6 +122,7 @@ Section Crypto.
   Variable hash : list Z -> list Z.
   Variable sign : Z -> list Z -> list Z.            (* key owner, data *)
   Variable verify : list Z -> list Z -> list Z -> bool.   (* public key blob, data, signature blob *)
+  Variable sig_alg_ok : list Z -> bool.   (* the signature blob names the negotiated host key algorithm *)
   Variable pubblob : Z -> list Z.                   (* key owner -> public key blob (asbytes) *)
   Variable ec_pub : family -> Z -> list Z.           (* private scalar -> encoded public value *)
   Variable ec_dh : family -> Z -> list Z -> Z.       (* exchange(private, peer public) as an integer *)
@@ -136,7 +137,8 @@ Section Crypto.
         let kb := if verify_key_from_arg then host_key else [] in
         let sb := if verify_sig_from_arg then sig else [] in
         let stored := if verify_stores_key then mkS (s_K st) (s_H st) (s_sid st) (Some kb) else st in
-        if verify kb d sb then Ok stored
+        if verify_alg_guard && negb (sig_alg_ok sig) then Raise SSHExc
+        else if verify kb d sb then Ok stored
         else if verify_raises then Raise SSHExc else Ok stored
     | _ => Raise TypeErr
     end.
